@@ -50,6 +50,43 @@ theorem C02_live_semantics (e : PEng) (d : Disk) (h : EInv e d) :
    fun id fl => (pDelete_spec e d id fl h).2.2.1,
    fun ids fl => (pBatchDelete_spec e d ids fl h).2.2.2⟩
 
+/-- one step of `pRun` -/
+def runStep (s : PEng × Disk) (op : POp) : PEng × Disk :=
+  ((pStep s.1 s.2 op).1, s.2.applyAll (pStep s.1 s.2 op).2.1)
+
+theorem restarts_from (n : Nat) (s : PEng × Disk) (h : EInv s.1 s.2) :
+    MapEq ((List.replicate n POp.restart).foldl runStep s).1.store.docs s.1.store.docs ∧
+    EInv ((List.replicate n POp.restart).foldl runStep s).1
+         ((List.replicate n POp.restart).foldl runStep s).2 := by
+  induction n generalizing s with
+  | zero => exact ⟨MapEq.refl _, h⟩
+  | succ n ih =>
+    rw [List.replicate_succ, List.foldl_cons]
+    obtain ⟨e', as, hr, hmap, hinv, _⟩ := pRestart_spec s.1 s.2 h
+    have hs : runStep s .restart = (e', s.2.applyAll as) := by
+      simp only [runStep, pStep, hr]
+    rw [hs]
+    obtain ⟨h1, h2⟩ := ih (e', s.2.applyAll as) hinv
+    exact ⟨MapEq.trans h1 hmap, h2⟩
+
+/-- **Any number of consecutive restarts.**  After every history, `n` restarts in a row — for
+    every `n` — all succeed in strict mode and leave exactly the documents the live engine held
+    before the first of them (each restart opens a new segment and rewrites the MANIFEST, so this
+    is not the same statement as one restart), and the engine is again in a state from which every
+    theorem of this file applies. -/
+theorem C02_consecutive_restarts (cfg : PCfg) (ops : List POp) (hv : ∀ op ∈ ops, op.valid) (n : Nat) :
+    MapEq (pRun cfg (ops ++ List.replicate n .restart)).1.store.docs (pRun cfg ops).1.store.docs ∧
+    EInv (pRun cfg (ops ++ List.replicate n .restart)).1
+         (pRun cfg (ops ++ List.replicate n .restart)).2 := by
+  have h := restarts_from n (pRun cfg ops) (einv_pRun cfg ops hv)
+  have e : pRun cfg (ops ++ List.replicate n .restart)
+      = (List.replicate n POp.restart).foldl runStep (pRun cfg ops) := by
+    unfold pRun
+    rw [List.foldl_append]
+    rfl
+  rw [e]
+  exact h
+
 /-! ### Witness: a history with overwrite, delete, rotation, automatic snapshot + compaction and
     a restart; the hypothesis is satisfiable and the recovered map is the expected one -/
 
